@@ -40,7 +40,7 @@ def cases(tier, seed):
     # (A) the complete product of unit spellings on one row, nine rows per workbook
     pairs = list(itertools.product(range(len(UNITS)), repeat=2))
     for i in range(0, len(pairs), 9):
-        yield dict(kind='units', pairs=pairs[i:i + 9], cont='int', hist=(i // 9) % 2 == 0)
+        yield dict(kind='units', pairs=pairs[i:i + 9], cont='int', hist=(i // 9) % 2 == 0, hdr=('plain', 'blanks')[(i // 9) % 3 == 1])
     if tier == 'thorough':
         for i in range(0, len(pairs), 9):
             yield dict(kind='units', pairs=pairs[i:i + 9], cont='float', hist=True)
@@ -54,7 +54,9 @@ def cases(tier, seed):
             ('failed_row', ['none', 'first', 'middle']),                  # a row whose file does not exist, listed above the rows under test
             ('mefnone', [False, True]),                                   # a manufacturer value given as None in the bead rows
             ('samplevolt', ['recorded', 'absent']),
-            ('chnames', ['plain', 'blank'])]                              # fluorescence channel names with a blank inside                       # sample files that do not record the optional detector voltage
+            ('chnames', ['plain', 'blank']),
+            ('hdr', ['plain', 'blanks']),                                 # blanks around / inside the '<channel> Units' headers (allowed by the documented header pattern)
+            ('clock', ['ticks', 'flat', 'btim-equal', 'btim', 'none'])]   # how the files record time: 'flat' and 'btim-equal' give an acquisition time of exactly 0 s, 'none' no time at all                              # fluorescence channel names with a blank inside                       # sample files that do not record the optional detector voltage
     # (floating-point files always hold a few scatter events beyond the declared range: they are not clipped by the instrument)
     done = []
     for cfg in explore.deviations(dims, 1 if tier == 'quick' else 2):
@@ -131,7 +133,7 @@ def build_experiment(c, d):
             wg.write_fcs(os.path.join(d, 'sub', 'cells%d.fcs' % k), wg.cell_layout(inst, stream=50 + k, container=cfg['cont'], negatives=cfg['neg'] and cfg['cont'] != 'int',
                                                                                   n={'many': 800 + 150 * k, 'smallest-accepted': 400 + 600 * (k % 2), 'one-more': 401 + k}[cfg.get('nevents', 'many')],
                                                                                   level=150.0 + 60 * k, overrange=cfg['cont'] != 'int', no_voltage=(cfg.get('samplevolt') == 'absent' and k % 2 == 0),
-                                                                                  res=[1024, 256] if cfg.get('res') == 'mixed' else None))
+                                                                                  res=[1024, 256] if cfg.get('res') == 'mixed' else None, clock=cfg.get('clock', 'ticks')))
             mybeads = [b for b in beads if b['inst'] == inst['id']]
             if cfg['units'] == 'mixed':
                 u = [['MEF', 'RFI'], ['a.u.', None], ['Channel', 'mef'], ['rfi', 'MEF']][k % 4]
@@ -159,7 +161,8 @@ def build_experiment(c, d):
         for ch in s['units']:
             if ch not in ucols:
                 ucols.append(ch)
-    wg.write_workbook(wb, insts, beads, samples, mef_channels_cols=mcols, unit_channels_cols=ucols)
+    wg.write_workbook(wb, insts, beads, samples, mef_channels_cols=mcols, unit_channels_cols=ucols,
+                      header_style=(c.get('hdr') or c.get('cfg', {}).get('hdr') or 'plain'))
     return wb, insts, beads, samples, hist
 
 
@@ -283,7 +286,8 @@ def run_case(c):
                         what, df, s.shape[0], hand.shape[0]), one)
                     continue
                 ok = True
-                if not same_num(st.loc[sid, 'Number of Events'], hand.shape[0]) or not same_num(st.loc[sid, 'Acquisition Time (s)'], hand.acquisition_time):
+                hand_t = hand.acquisition_time if hand.acquisition_time is not None else float('nan')         # (no time information: an empty cell)
+                if not same_num(st.loc[sid, 'Number of Events'], hand.shape[0]) or not same_num(st.loc[sid, 'Acquisition Time (s)'] if st.loc[sid, 'Acquisition Time (s)'] is not None else float('nan'), hand_t):
                     res.violation('count-or-time', '%s: Number of Events %r / Acquisition Time %r, the gated sample has %d events / %r s' % (
                         what, st.loc[sid, 'Number of Events'], st.loc[sid, 'Acquisition Time (s)'], hand.shape[0], hand.acquisition_time), one)
                     ok = False
